@@ -270,42 +270,66 @@ end Lengths
 section Modulate
 variable {α : Type} [Zero α]
 
+theorem padKeep_length (x : List α) (k : Nat) : (padKeep x k).length = x.length + 2 * k := by
+  unfold padKeep
+  cases h : padEdge x k with
+  | some y => exact padEdge_length h
+  | none =>
+    have := ((padEdge_none_iff x k).mp h).1
+    subst this; simp; omega
+
+theorem padKeepRight_length (x : List α) (k : Nat) : (padKeepRight x k).length = x.length + k := by
+  unfold padKeepRight
+  cases h : padEdgeRight x k with
+  | some y => exact padEdgeRight_length h
+  | none =>
+    have := ((padEdgeRight_none_iff x k).mp h).1
+    subst this; simp
+
 theorem channelModulate_nofilter (filt : List α → List α) (c : ModCfg) (hc : c.filters = false)
-    (x : List α) (k : Bool) : channelModulate filt c x k = some x := by
+    (x : List α) (k : Bool) : channelModulate filt c x k = x := by
   unfold channelModulate; simp [hc]
 
 theorem channelModulate_plain (filt : List α → List α) (hf : ∀ l, (filt l).length = l.length)
     (c : ModCfg) (hc : c.filters = true) (x : List α) :
-    ∃ y, channelModulate filt c x false = some y ∧ y.length = x.length + 2 * c.pad := by
-  refine ⟨filt (padZero x c.pad), by simp [channelModulate, hc], ?_⟩
-  rw [hf, padZero_length]
+    (channelModulate filt c x false).length = x.length + 2 * c.pad := by
+  simp only [channelModulate, hc]
+  simp [hf, padZero_length]
 
 theorem channelModulate_keep (filt : List α → List α) (hf : ∀ l, (filt l).length = l.length)
-    (c : ModCfg) (hc : c.filters = true) (hr : 1 ≤ c.rise) (x : List α) (hx : x ≠ []) :
-    ∃ y, channelModulate filt c x true = some y ∧ y.length = x.length + 2 * c.pad := by
-  cases hp : padEdge x (c.pad + c.rise) with
-  | none => exact absurd ((padEdge_none_iff x _).mp hp).1 hx
-  | some s =>
-    have hl := padEdge_length hp
-    refine ⟨pySlice (filt s) (c.rise : Int) (-(c.rise : Int)), by simp [channelModulate, hc, hp], ?_⟩
-    rw [pySlice_trim_length _ _ hr (by rw [hf, hl]; omega), hf, hl]; omega
-
-theorem channelModulate_keep_empty (filt : List α → List α) (c : ModCfg) (hc : c.filters = true)
-    (hk : 0 < c.pad + c.rise) : channelModulate filt c ([] : List α) true = none := by
-  have : padEdge ([] : List α) (c.pad + c.rise) = none := (padEdge_none_iff _ _).mpr ⟨rfl, hk⟩
-  simp [channelModulate, hc, this]
+    (c : ModCfg) (hc : c.filters = true) (hr : 1 ≤ c.rise) (x : List α) :
+    (channelModulate filt c x true).length = x.length + 2 * c.pad := by
+  simp only [channelModulate, hc]
+  simp only [Bool.not_true, Bool.false_eq_true, if_false, if_true]
+  have hl := padKeep_length x (c.pad + c.rise)
+  rw [pySlice_trim_length _ _ hr (by rw [hf, hl]; omega), hf, hl]; omega
 
 theorem channelModulate_keep_zero_rise (filt : List α → List α) (c : ModCfg) (hc : c.filters = true)
-    (hr : c.rise = 0) (x : List α) (hx : x ≠ []) : channelModulate filt c x true = some [] := by
-  cases hp : padEdge x (c.pad + c.rise) with
-  | none => exact absurd ((padEdge_none_iff x _).mp hp).1 hx
-  | some s =>
-    rw [hr] at hp
-    simp only [Nat.add_zero] at hp
-    have := pySlice_zero_empty (filt s)
-    simp only [channelModulate, hc, hr, Nat.add_zero]
-    simp only [Int.neg_zero] at this
-    simp [hp, this]
+    (hr : c.rise = 0) (x : List α) : channelModulate filt c x true = [] := by
+  simp only [channelModulate, hc, hr]
+  have := pySlice_zero_empty (filt (padKeep x (c.pad + 0)))
+  simp only [Int.neg_zero] at this
+  simpa using this
+
+/-- The old, unguarded `Channel.modulate(keep_ends=True)` on an empty input (F14). -/
+theorem channelModulateOld_keep_empty (filt : List α → List α) (c : ModCfg) (hc : c.filters = true)
+    (hk : 0 < c.pad + c.rise) : channelModulateOld filt c ([] : List α) true = none := by
+  have : padEdge ([] : List α) (c.pad + c.rise) = none := (padEdge_none_iff _ _).mpr ⟨rfl, hk⟩
+  simp [channelModulateOld, hc, this]
+
+/-- Away from the empty input the old and the repaired `Channel.modulate` agree. -/
+theorem channelModulateOld_eq (filt : List α → List α) (c : ModCfg) (x : List α) (k : Bool)
+    (hx : x ≠ [] ∨ k = false) : channelModulateOld filt c x k = some (channelModulate filt c x k) := by
+  unfold channelModulateOld channelModulate
+  cases hc : c.filters <;> simp only [Bool.not_true, Bool.not_false, if_true, if_false, Bool.false_eq_true]
+  cases k
+  · simp
+  · simp only [if_true]
+    rcases hx with hx | hx
+    · cases hp : padEdge x (c.pad + c.rise) with
+      | none => exact absurd ((padEdge_none_iff x _).mp hp).1 hx
+      | some y => simp [padKeep, hp]
+    · cases hx
 
 omit [Zero α] in
 theorem trimModulated_length (mod : List α) (n tr start stop : Nat) (hm : mod.length = n + 2 * tr)
@@ -317,39 +341,25 @@ theorem trimModulated_length (mod : List α) (n tr start stop : Nat) (hm : mod.l
   split at h <;> (try split at h) <;> (try split at h) <;> (try split at h) <;> omega
 
 theorem csModulate_lengths (filt : List α → List α) (hf : ∀ l, (filt l).length = l.length)
-    (c : ModCfg) (hc : c.filters = true) (hr : 1 ≤ c.rise) (s : CS α) (n m : Nat) (hn : 0 < n)
+    (c : ModCfg) (hc : c.filters = true) (hr : 1 ≤ c.rise) (s : CS α) (n m : Nat)
     (ha : s.amp.length = n) (hd : s.det.length = n) (hp : s.phase.length = n)
     (hm : m ≤ n + 2 * c.pad) :
-    ∃ r, csModulate filt c s (some m) = some r ∧
-      r.amp.length = m ∧ r.det.length = m ∧ r.phase.length = m := by
-  obtain ⟨amp, h1, l1⟩ := channelModulate_plain filt hf c hc s.amp
-  obtain ⟨det, h2, l2⟩ := channelModulate_keep filt hf c hc hr s.det
-    (by intro h; rw [h] at hd; simp at hd; omega)
-  cases hph : padEdgeRight s.phase (amp.length - s.phase.length) with
-  | none =>
-    have := ((padEdgeRight_none_iff _ _).mp hph).1
-    rw [this] at hp; simp at hp; omega
-  | some ph =>
-    have l3 := padEdgeRight_length hph
-    refine ⟨{ amp := amp.take m, det := det.take m, phase := ph.take m },
-      by simp [csModulate, h1, h2, hph], ?_, ?_, ?_⟩ <;>
-      simp only [List.length_take] <;> omega
+    (csModulate filt c s (some m)).amp.length = m ∧ (csModulate filt c s (some m)).det.length = m ∧
+      (csModulate filt c s (some m)).phase.length = m := by
+  have l1 := channelModulate_plain filt hf c hc s.amp
+  have l2 := channelModulate_keep filt hf c hc hr s.det
+  have l3 := padKeepRight_length s.phase ((channelModulate filt c s.amp false).length - s.phase.length)
+  simp only [csModulate, List.length_take]
+  omega
 
-theorem csModulate_nofilter (filt : List α → List α) (c : ModCfg) (hc : c.filters = false)
-    (s : CS α) (hp : s.amp.length = s.phase.length) (m : Option Nat) :
-    (csModulate filt c s m).isSome = true := by
-  have : padEdgeRight s.phase (s.amp.length - s.phase.length) = some s.phase ∨
-      padEdgeRight s.phase (s.amp.length - s.phase.length) = some [] := by
-    rw [hp, Nat.sub_self]
-    unfold padEdgeRight
-    cases h : s.phase.getLast? <;> simp
-  rcases this with h | h <;>
-    simp [csModulate, channelModulate_nofilter filt c hc, h]
-
-theorem csModulate_empty_fails (filt : List α → List α) (c : ModCfg) (hc : c.filters = true)
-    (hk : 0 < c.pad + c.rise) (ph : List α) (m : Option Nat) :
-    csModulate filt c { amp := [], det := [], phase := ph } m = none := by
-  simp [csModulate, channelModulate_keep_empty filt c hc hk]
+theorem csModulate_nofilter_lengths (filt : List α → List α) (c : ModCfg) (hc : c.filters = false)
+    (s : CS α) (n m : Nat) (ha : s.amp.length = n) (hd : s.det.length = n) (hp : s.phase.length = n)
+    (hm : m ≤ n) :
+    (csModulate filt c s (some m)).amp.length = m ∧ (csModulate filt c s (some m)).det.length = m ∧
+      (csModulate filt c s (some m)).phase.length = m := by
+  have l3 := padKeepRight_length s.phase ((channelModulate filt c s.amp false).length - s.phase.length)
+  simp only [csModulate, channelModulate_nofilter filt c hc, List.length_take] at l3 ⊢
+  omega
 
 end Modulate
 
